@@ -172,8 +172,7 @@ void run_typed(const Execution &ex) {
             *me = *other;
             moved[o] = false;
         } else if (op == "MoveConstruct") {
-            me = new A(std::move(*other));
-            moved[1 - o] = true;
+            me = new A(std::move(*other));   // the source stays observable: it must now be an empty array
         } else if (op == "MoveAssign") {
             *me = std::move(*other);
             moved[o] = false;
